@@ -203,7 +203,17 @@ func init() {
 					pd[k] = cls
 				}
 				cls := pickFV(c, pBad)
-				setField(rm, "N", cls, flipLast(rm["N"], 1)) // even
+				badN := flipLast(rm["N"], 1) // even
+				var shortN *big.Int
+				if nb, ok := rm["N"].([]byte); ok && len(nb) > 0 && cls == "bad" && c.Intn(2) == 0 {
+					// odd, one bit short of the required size (top bit cleared, the next one set); S and T are reduced below
+					// so that the size of N is the ONLY flaw of the record
+					sn := append([]byte{}, nb...)
+					sn[0] = (sn[0] & 0x7f) | 0x40
+					badN, shortN = sn, new(big.Int).SetBytes(sn)
+					c.Count("cmptree/N-one-bit-short")
+				}
+				setField(rm, "N", cls, badN)
 				pd["N"] = cls
 				cls = pickFV(c, pBad)
 				setField(rm, "S", cls, []byte{}) // zero is no unit
@@ -215,6 +225,13 @@ func init() {
 				}
 				setField(rm, "T", cls, badT)
 				pd["T"] = cls
+				if shortN != nil {
+					for _, k := range []string{"S", "T"} {
+						if b, ok := rm[k].([]byte); ok && len(b) > 0 {
+							rm[k] = new(big.Int).Mod(new(big.Int).SetBytes(b), shortN).Bytes()
+						}
+					}
+				}
 				pubDesc = append(pubDesc, pd)
 			}
 			tm["Public"] = recs
